@@ -95,7 +95,12 @@ def run_shard(ctx):
                     continue
                 try:
                     enc = spec.encode(name, v, check_constraints=True)
-                    back = spec.decode(name, enc)
+                    back = core.guarded(lambda: spec.decode(name, enc), 20)
+                except core.CaseTimeout:
+                    # e.g. OER UTF8String (SIZE (n)) with non-ASCII text followed by a list of zero-width elements: two
+                    # known findings of C01/C06/C08 combined; a round trip that does not come back is not C16's business
+                    st.inc('skipped_roundtrip_does_not_terminate_in_20s')
+                    continue
                 except NotImplementedError:
                     st.inc('skipped_unsupported')
                     continue
